@@ -509,3 +509,1297 @@ def ser_block(b):
 
 def serialize(block):
     return ser_block(block)
+
+
+# =====================================================================================
+# Program generator
+# =====================================================================================
+class V:
+    """a local variable known to the generator"""
+    __slots__ = ("name", "ty", "mutable", "info", "shared", "level")
+
+    def __init__(self, name, ty, mutable=True, info=None, level=0):
+        self.name = name
+        self.ty = ty
+        self.mutable = mutable
+        self.info = info or {}
+        self.shared = False       # assigned inside some function body
+        self.level = level        # function nesting level of the declaration
+
+
+INT_BOUNDARY = [0, 1, 2, 3, 7, 10, 255, 256, 65535, 1 << 31, (1 << 31) - 1, 1 << 32, (1 << 53), (1 << 53) + 1,
+                (1 << 62), (1 << 63) - 1]
+STR_POOL = [b"", b"a", b"ab", b"abc", b"hello", b"x y", b"10", b"0x10", b" 7 ", b"3.5", b"-2", b"1e2", b"a\nb", b"\x00\xff", b"q\"'\\",
+            b"key", b"k1", b"]]", b"--", b"nil", b"Z"]
+NUMERIC_STRS = [b"10", b"0x10", b" 7 ", b"-2", b"3", b"007", b"2.5", b"1e2", b"0.5"]
+FLT_POOL = [0.0, 0.5, 1.0, 1.5, 2.0, -0.5, 0.25, 3.0, 10.0, 0.1, 1e10, 1e100, 2.0 ** 53, 1e-3, 123.456, 7.0, -3.75]
+
+
+class ProgramGen:
+    def __init__(self, rng, profile=None):
+        self.rng = rng
+        self.pf = dict(floats=True, meta=True, errors=True, goto=True, strings=True, coerce=True, level2=True)
+        if profile:
+            self.pf.update(profile)
+        self.scopes = [[]]
+        self.nname = 0
+        self.budget = 30 + rng.below(40)
+        self.loop_depth = 0
+        self.fn_level = 0
+        self.in_va = True
+        self.pure = False
+        self.impc = 0            # number of impure sub-expressions generated so far
+        self.feats = {}
+        self.nlabel = 0
+        self.block_depth = 0
+
+    # ------------------------------------------------------------------ helpers
+    def feat(self, k):
+        self.feats[k] = self.feats.get(k, 0) + 1
+
+    def fresh(self, prefix="v"):
+        # sometimes reuse a visible name (shadowing)
+        if prefix == "v" and self.rng.chance(1, 12):
+            vs = [v for v in self.visible() if v.name.startswith("v")]
+            if vs:
+                self.feat("shadowing")
+                return self.rng.choice(vs).name
+        self.nname += 1
+        return "%s%d" % (prefix, self.nname)
+
+    def visible(self):
+        seen, out = set(), []
+        for sc in reversed(self.scopes):
+            for v in reversed(sc):
+                if v.name not in seen:
+                    seen.add(v.name)
+                    out.append(v)
+        return out
+
+    def declare(self, v):
+        v.level = self.fn_level
+        self.scopes[-1].append(v)
+        return v
+
+    def vars_of(self, ty, strict=False, assignable=False):
+        out = []
+        for v in self.visible():
+            if v.ty != ty:
+                continue
+            if strict and (v.shared or (v.mutable and v.level < self.fn_level and False)):
+                continue
+            if self.pure and v.level < self.fn_level and (v.mutable or v.shared):
+                continue
+            if assignable:
+                if not v.mutable:
+                    continue
+                if self.pure and v.level < self.fn_level:
+                    continue
+            out.append(v)
+        return out
+
+    def push(self):
+        self.scopes.append([])
+
+    def pop(self):
+        self.scopes.pop()
+
+    # ------------------------------------------------------------------ expressions
+    def small_int(self):
+        r = self.rng
+        k = r.below(10)
+        if k < 6:
+            return r.below(12) - 2
+        if k < 8:
+            return r.below(200) - 50
+        z = r.choice(INT_BOUNDARY)
+        return -z if r.chance(1, 4) else z
+
+    def int_leaf(self, strict):
+        vs = self.vars_of("int", strict)
+        if vs and self.rng.chance(3, 5):
+            return Var(self.rng.choice(vs).name)
+        return Int(self.small_int())
+
+    def exp(self, ty, d=0, imp=False, strict=False):
+        return getattr(self, "e_" + ty)(d, imp, strict)
+
+    def two(self, ta, tb, d, imp, strict):
+        """two operands; at most one of them may be impure; the other is then strict"""
+        if imp and self.rng.chance(1, 2):
+            first = self.rng.below(2)
+            c0 = self.impc
+            if first == 0:
+                a = self.exp(ta, d + 1, True, strict)
+                used = self.impc != c0
+                b = self.exp(tb, d + 1, False, strict or used)
+            else:
+                b = self.exp(tb, d + 1, True, strict)
+                used = self.impc != c0
+                a = self.exp(ta, d + 1, False, strict or used)
+            return a, b
+        return self.exp(ta, d + 1, False, strict), self.exp(tb, d + 1, False, strict)
+
+    def args_for(self, tys, d, imp, strict):
+        """argument list; at most one impure argument"""
+        n = len(tys)
+        res = [None] * n
+        order = list(range(n))
+        fav = self.rng.below(n) if (n and imp and self.rng.chance(1, 2)) else -1
+        used = False
+        if fav >= 0:
+            c0 = self.impc
+            res[fav] = self.exp(tys[fav], d + 1, True, strict)
+            used = self.impc != c0
+        for i in order:
+            if res[i] is None:
+                res[i] = self.exp(tys[i], d + 1, False, strict or used)
+        return res
+
+    def call_fn(self, v, d, imp, strict):
+        """a call of generator-known function v (all parameters are ints)"""
+        info = v.info
+        args = self.args_for(["int"] * info["np"], d, imp and info["pure"], strict)
+        if info["va"]:
+            extra = self.rng.below(3)
+            args += [self.exp(self.rng.choice(["int", "str"]), d + 1, False, True) for _ in range(extra)]
+        if not info["pure"]:
+            self.impc += 1
+        self.feat("call:" + ("pure" if info["pure"] else "impure"))
+        return Call(Var(v.name), *args)
+
+    def fns(self, imp, strict, ret0=None):
+        out = []
+        for v in self.visible():
+            if v.ty != "fn":
+                continue
+            i = v.info
+            if not i["pure"] and (not imp or self.pure):
+                continue
+            if self.pure and v.level < self.fn_level and v.mutable:
+                continue
+            if i.get("busy"):
+                continue
+            if ret0 is not None and (not i["rets"] or i["rets"][0] != ret0):
+                continue
+            out.append(v)
+        return out
+
+    def e_int(self, d, imp, strict):
+        r = self.rng
+        if d >= 3 or r.chance(1, 4):
+            return self.int_leaf(strict)
+        k = r.below(100)
+        if k < 30:
+            op = r.choice(["add", "sub", "mul", "add", "sub", "band", "bor", "bxor"])
+            a, b = self.two("int", "int", d, imp, strict)
+            return Bin(op, a, b)
+        if k < 38:
+            op = r.choice(["idiv", "mod"])
+            a = self.exp("int", d + 1, imp, strict)
+            dv = r.choice([1, 2, 3, 5, 7, -1, -2, -3, 10, 256])
+            self.feat("op:" + op)
+            return Bin(op, a, Int(dv))
+        if k < 43:
+            a = self.exp("int", d + 1, imp, strict)
+            self.feat("op:shift")
+            return Bin(r.choice(["shl", "shr"]), a, Int(r.choice([0, 1, 2, 3, 31, 32, 63, 64, 65, -1, -2])))
+        if k < 48:
+            return Un(r.choice(["neg", "bnot"]), self.exp("int", d + 1, imp, strict))
+        if k < 54:
+            if self.pf["strings"]:
+                return Un("len", self.exp("str", d + 1, imp, strict))
+        if k < 60:
+            fs = self.fns(imp, strict, "int")
+            if fs:
+                return self.call_fn(r.choice(fs), d, imp, strict)
+        if k < 65 and imp and not self.pure:
+            self.impc += 1
+            self.feat("emit-in-exp")
+            return Call(Var("emit"), self.exp("int", d + 1, False, strict))
+        if k < 70:
+            c = self.exp("bool", d + 1, imp, strict)
+            self.feat("and-or-select")
+            return Or(And(c, self.exp("int", d + 1, False, True)), self.exp("int", d + 1, False, True))
+        if k < 74 and self.in_va and not strict:
+            self.feat("select#")
+            return Call(Var("select"), Str("#"), Dots())
+        if k < 80 and not strict:
+            vs = self.vars_of("seq")
+            if vs:
+                v = r.choice(vs)
+                self.feat("seq-read")
+                if r.chance(1, 2):
+                    return Un("len", Var(v.name))
+                return Par(Or(Ix(Var(v.name), self.exp("int", d + 1, False, True)), Int(self.small_int())))
+        if k < 86 and not strict:
+            vs = self.vars_of("rec")
+            if vs:
+                v = r.choice(vs)
+                self.feat("rec-read")
+                return Fld(Var(v.name), r.choice(v.info["fields"]))
+        if k < 90 and self.pf["coerce"]:
+            self.feat("coerce:str-arith")
+            s = r.choice([b"10", b"0x10", b" 7 ", b"-2", b"3"])
+            return Bin(r.choice(["add", "mul", "sub"]), Str(s), self.exp("int", d + 1, imp, strict))
+        if k < 93 and self.pf["floats"]:
+            self.feat("math.tointeger")
+            return Par(Or(Call(Fld(Var("math"), "tointeger"), self.exp("flt", d + 1, imp, strict)), Int(-1)))
+        if k < 96:
+            return Par(self.exp("int", d + 1, imp, strict))
+        return self.int_leaf(strict)
+
+    def e_flt(self, d, imp, strict):
+        r = self.rng
+        if not self.pf["floats"]:
+            return Flt(1.5)
+        vs = self.vars_of("flt", strict)
+        if d >= 3 or r.chance(1, 3):
+            if vs and r.chance(1, 2):
+                return Var(r.choice(vs).name)
+            return Flt(r.choice(FLT_POOL))
+        k = r.below(100)
+        self.feat("float-op")
+        if k < 40:
+            a, b = self.two("flt", r.choice(["flt", "int"]), d, imp, strict)
+            if r.chance(1, 2):
+                a, b = b, a
+            return Bin(r.choice(["add", "sub", "mul", "div"]), a, b)
+        if k < 55:
+            a, b = self.two("int", "int", d, imp, strict)
+            return Bin("div", a, b)
+        if k < 65:
+            return Un("neg", self.exp("flt", d + 1, imp, strict))
+        if k < 75:
+            a = self.exp("flt", d + 1, imp, strict)
+            return Bin("idiv", a, r.choice([Flt(2.0), Flt(0.5), Int(3), Flt(1.0)]))
+        if k < 82:
+            self.feat("pow")
+            return Bin("pow", Int(r.choice([2, 3, 10, -2])), Int(r.below(6)))
+        if k < 88:
+            self.feat("float-mod")
+            return Bin("mod", Flt(r.choice([5.5, -5.5, 7.0, 0.75, -3.25])), Flt(r.choice([2.0, -2.0, 0.5, 1.25])))
+        if k < 94:
+            return Bin("add", self.exp("int", d + 1, imp, strict), Flt(r.choice([0.0, 0.5, 1.0])))
+        return Flt(r.choice(FLT_POOL))
+
+    def e_str(self, d, imp, strict):
+        r = self.rng
+        vs = self.vars_of("str", strict)
+        if d >= 3 or r.chance(1, 3) or not self.pf["strings"]:
+            if vs and r.chance(1, 2):
+                return Var(r.choice(vs).name)
+            return Str(r.choice(STR_POOL))
+        k = r.below(100)
+        if k < 35:
+            a, b = self.two(r.choice(["str", "int"]), r.choice(["str", "str", "int"]), d, imp, strict)
+            self.feat("concat")
+            return Bin("concat", a, b)
+        if k < 45:
+            self.feat("tostring")
+            return Call(Var("tostring"), self.exp(r.choice(["int", "bool", "str"]), d + 1, imp, strict))
+        if k < 60:
+            s = self.exp("str", d + 1, imp, strict)
+            i, j = r.below(7) - 3, r.below(8) - 3
+            self.feat("str:sub")
+            if r.chance(1, 2):
+                return Meth(s, "sub", Int(i), Int(j))
+            return Call(Fld(Var("string"), "sub"), s, Int(i))
+        if k < 68:
+            self.feat("str:rep")
+            return Meth(self.exp("str", d + 1, imp, strict), "rep", Int(r.below(4)))
+        if k < 75:
+            self.feat("type()")
+            return Call(Var("type"), self.exp(r.choice(["int", "str", "bool", "any", "flt"]), d + 1, imp, strict))
+        if k < 80:
+            self.feat("string.char")
+            return Call(Fld(Var("string"), "char"), Int(65 + r.below(26)), Int(r.below(256)))
+        if k < 86:
+            fs = self.fns(imp, strict, "str")
+            if fs:
+                return self.call_fn(r.choice(fs), d, imp, strict)
+        if k < 92:
+            self.feat("math.type")
+            return Par(Or(Call(Fld(Var("math"), "type"), self.exp(r.choice(["int", "flt"]) if self.pf["floats"] else "int", d + 1, imp, strict)), Str("none")))
+        return Str(r.choice(STR_POOL))
+
+    def e_bool(self, d, imp, strict):
+        r = self.rng
+        vs = self.vars_of("bool", strict)
+        if d >= 3 or r.chance(1, 5):
+            if vs and r.chance(1, 2):
+                return Var(r.choice(vs).name)
+            return TrueE() if r.chance(1, 2) else FalseE()
+        k = r.below(100)
+        if k < 45:
+            op = r.choice(["lt", "le", "gt", "ge", "eq", "ne"])
+            a, b = self.two("int", "int", d, imp, strict)
+            self.feat("cmp:int")
+            return Bin(op, a, b)
+        if k < 55 and self.pf["strings"]:
+            op = r.choice(["lt", "le", "gt", "ge", "eq", "ne"])
+            a, b = self.two("str", "str", d, imp, strict)
+            self.feat("cmp:str")
+            return Bin(op, a, b)
+        if k < 63 and self.pf["floats"]:
+            op = r.choice(["lt", "le", "gt", "ge", "eq", "ne"])
+            a, b = self.two("flt", r.choice(["flt", "int"]), d, imp, strict)
+            self.feat("cmp:mixed")
+            return Bin(op, a, b)
+        if k < 72:
+            return Un("not", self.exp(r.choice(["bool", "any", "int"]), d + 1, imp, strict))
+        if k < 80:
+            a = self.exp("bool", d + 1, imp, strict)
+            b = self.exp("bool", d + 1, imp, strict)     # sequenced by and/or: both may be impure
+            self.feat("and-or")
+            return (And if r.chance(1, 2) else Or)(a, b)
+        if k < 88:
+            a, b = self.two("any", "any", d, imp, strict)
+            self.feat("eq:any")
+            return Bin(r.choice(["eq", "ne"]), a, b)
+        if k < 92:
+            a, b = self.two("any", "any", d, imp, strict)
+            return Call(Var("rawequal"), a, b)
+        return TrueE() if r.chance(1, 2) else FalseE()
+
+    def e_any(self, d, imp, strict):
+        r = self.rng
+        k = r.below(100)
+        if k < 25:
+            return self.exp("int", d, imp, strict)
+        if k < 40:
+            return self.exp("str", d, imp, strict)
+        if k < 50:
+            return self.exp("bool", d, imp, strict)
+        if k < 58 and self.pf["floats"]:
+            return self.exp("flt", d, imp, strict)
+        if k < 64:
+            return Nil()
+        if k < 72 and not strict:
+            vs = self.vars_of("seq") + self.vars_of("rec")
+            if vs:
+                v = r.choice(vs)
+                return Ix(Var(v.name), self.exp(r.choice(["int", "str"]), d + 1, False, True))
+        if k < 78 and self.in_va and not strict:
+            self.feat("select-n")
+            return Par(Call(Var("select"), Int(r.choice([1, 2, -1])), Str("pad"), Dots()))
+        if k < 84 and self.in_va and not strict:
+            self.feat("dots-paren")
+            return Par(Dots())
+        if k < 90:
+            vs = [v for v in self.vars_of("any", strict)]
+            if vs:
+                return Var(r.choice(vs).name)
+        if k < 94:
+            a = self.exp("any", d + 1, imp, strict)
+            b = self.exp("any", d + 1, imp, strict)
+            self.feat("and-or")
+            return (And if r.chance(1, 2) else Or)(a, b)
+        return self.exp("int", d, imp, strict)
+
+    def e_seq(self, d, imp, strict):
+        n = self.rng.below(5)
+        self.feat("ctor:seq")
+        return Tab(*[FPos(self.exp("int", d + 1, False, True)) for _ in range(n)])
+
+    # ------------------------------------------------------------------ statements
+    def emit_stat(self, es):
+        return SCall(Call(Var("emit"), *es))
+
+    def observe(self):
+        """emit the observable variables"""
+        es = []
+        for v in self.visible():
+            if v.ty in ("int", "str", "bool", "flt", "any") and len(es) < 6:
+                es.append(Var(v.name))
+            elif v.ty == "seq" and len(es) < 6:
+                es.append(Un("len", Var(v.name)))
+            elif v.ty == "rec" and len(es) < 6:
+                es.append(Fld(Var(v.name), v.info["fields"][0]))
+        if not es:
+            es = [Int(0)]
+        self.rng.below(2)
+        return self.emit_stat(es)
+
+    def block(self, n, new_scope=True):
+        if new_scope:
+            self.push()
+        self.block_depth += 1
+        out = []
+        for _ in range(n):
+            if self.budget <= 0:
+                break
+            out += self.stat()
+        self.block_depth -= 1
+        if new_scope:
+            self.pop()
+        return out
+
+    def stat(self):
+        self.budget -= 1
+        r = self.rng
+        table = [
+            (14, self.s_local), (10, self.s_assign), (10, self.s_emit), (8, self.s_if), (4, self.s_while),
+            (3, self.s_repeat), (5, self.s_fornum), (3, self.s_forin), (2, self.s_do), (7, self.s_fn),
+            (4, self.s_callstat), (3, self.s_closure_loop), (4, self.s_seq), (4, self.s_rec), (3, self.s_obj),
+            (4, self.s_meta), (5, self.s_pcall), (2, self.s_goto), (4, self.s_varargs), (2, self.s_tailrec),
+            (2, self.s_multi), (2, self.s_break), (2, self.s_forfloat), (2, self.s_xpcall), (2, self.s_method_str),
+            (2, self.s_iter_closure), (2, self.s_const), (1, self.s_return_early),
+        ]
+        tot = sum(w for w, _ in table)
+        x = r.below(tot)
+        for w, f in table:
+            if x < w:
+                res = f()
+                if res is None:
+                    return self.s_local()
+                return res
+            x -= w
+        return self.s_local()
+
+    def s_local(self):
+        r = self.rng
+        n = 1 + (r.below(3) if r.chance(1, 3) else 0)
+        tys = [r.choice(["int", "int", "int", "str", "bool", "flt" if self.pf["floats"] else "int"]) for _ in range(n)]
+        es = []
+        used = False
+        for i, t in enumerate(tys):
+            c0 = self.impc
+            es.append(self.exp(t, 0, not used and not self.pure, used))
+            used = used or self.impc != c0
+        names = [self.fresh() for _ in range(n)]
+        if len(set(names)) < n:
+            names = [self.fresh("w") for _ in range(n)]
+        vs = [V(nm, t, mutable=r.chance(3, 4)) for nm, t in zip(names, tys)]
+        if r.chance(1, 10):
+            # fewer expressions than names: the rest are nil
+            es = es[:max(1, n - 1)] if n > 1 else []
+            for v in vs[len(es):]:
+                v.ty = "any"
+            self.feat("local:fewer-exps")
+        for v in vs:
+            self.declare(v)
+        self.feat("stat:local")
+        return [Local(names, es)]
+
+    def s_assign(self):
+        r = self.rng
+        cands = [v for v in self.visible() if v.mutable and v.ty in ("int", "str", "bool", "flt")
+                 and not (self.pure and v.level < self.fn_level)]
+        if not cands:
+            return None
+        n = 1 + (r.below(2) if r.chance(1, 4) and len(cands) > 1 else 0)
+        tg = []
+        for _ in range(n):
+            v = r.choice(cands)
+            if v not in tg:
+                tg.append(v)
+        es = []
+        used = False
+        for v in tg:
+            c0 = self.impc
+            es.append(self.exp(v.ty, 0, not used and not self.pure, used))
+            used = used or self.impc != c0
+            if v.level < self.fn_level:
+                v.shared = True
+                self.feat("upvalue-write")
+        self.feat("stat:assign%d" % len(tg))
+        return [Assign([Var(v.name) for v in tg], es)]
+
+    def s_emit(self):
+        if self.pure:
+            return None
+        r = self.rng
+        n = 1 + r.below(3)
+        tys = [r.choice(["int", "str", "bool", "any", "flt" if self.pf["floats"] else "int"]) for _ in range(n)]
+        es = self.args_for(tys, 0, True, False)
+        self.feat("stat:emit")
+        return [self.emit_stat(es)]
+
+    def s_if(self):
+        r = self.rng
+        if self.block_depth > 3:
+            return None
+        arms = []
+        for _ in range(1 + (r.below(2) if r.chance(1, 3) else 0)):
+            c = self.exp(r.choice(["bool", "bool", "any"]), 0, not self.pure, False)
+            arms.append((c, self.block(1 + r.below(3))))
+        els = self.block(1 + r.below(2)) if r.chance(1, 2) else None
+        self.feat("stat:if" + ("-elseif" if len(arms) > 1 else "") + ("-else" if els is not None else ""))
+        return [If(arms, els)]
+
+    def loop_body(self, n, extra_vars=()):
+        self.push()
+        for v in extra_vars:
+            self.declare(v)
+        self.loop_depth += 1
+        saved_pure = self.pure
+        b = self.block(n, new_scope=False)
+        self.loop_depth -= 1
+        self.pop()
+        return b
+
+    def s_while(self):
+        r = self.rng
+        if self.block_depth > 2:
+            return None
+        i = self.fresh("i")
+        lim = 1 + r.below(4)
+        cv = V(i, "int", mutable=False)
+        self.declare(cv)
+        body = self.loop_body(1 + r.below(3))
+        inc = Assign([Var(i)], [Bin("add", Var(i), Int(1))])
+        self.feat("stat:while")
+        if r.chance(1, 2):
+            return [Local([i], [Int(0)]), While(Bin("lt", Var(i), Int(lim)), [inc] + body)]
+        return [Local([i], [Int(0)]), While(Bin("lt", Var(i), Int(lim)), body + [inc])] if not self._ends_abruptly(body) else \
+               [Local([i], [Int(0)]), While(Bin("lt", Var(i), Int(lim)), [inc] + body)]
+
+    def _ends_abruptly(self, body):
+        return bool(body) and body[-1].k in ("break", "return", "goto")
+
+    def s_repeat(self):
+        r = self.rng
+        if self.block_depth > 2:
+            return None
+        i = self.fresh("i")
+        lim = 1 + r.below(3)
+        self.declare(V(i, "int", mutable=False))
+        self.push()
+        self.loop_depth += 1
+        loc = self.fresh("u")
+        self.declare(V(loc, "int", mutable=False))
+        first = Local([loc], [Bin("add", Var(i), Int(1))])
+        body = self.block(r.below(3), new_scope=False)
+        if self._ends_abruptly(body):
+            body = body[:-1]
+        self.loop_depth -= 1
+        self.pop()
+        inc = Assign([Var(i)], [Var(loc)])
+        self.feat("stat:repeat(until sees body local)")
+        return [Local([i], [Int(0)]), Repeat([first, inc] + body, Bin("ge", Var(loc), Int(lim)))]
+
+    def s_fornum(self):
+        r = self.rng
+        if self.block_depth > 2:
+            return None
+        x = self.fresh("i")
+        k = r.below(10)
+        if k < 5:
+            e1, e2, e3 = Int(1), Int(1 + r.below(4)), None
+        elif k < 7:
+            e1, e2, e3 = Int(r.below(5)), Int(r.below(8)), Int(r.choice([1, 2, 3]))
+        elif k < 9:
+            e1, e2, e3 = Int(3 + r.below(3)), Int(r.below(3)), Int(r.choice([-1, -2]))
+        else:
+            hi = (1 << 63) - 1
+            e1, e2, e3 = Int(hi - 2), Int(hi), Int(r.choice([1, 2]))
+            self.feat("for:near-maxint")
+        body = self.loop_body(1 + r.below(3), [V(x, "int", mutable=False)])
+        self.feat("stat:fornum")
+        return [For(x, e1, e2, e3, body)]
+
+    def s_forfloat(self):
+        r = self.rng
+        if not self.pf["floats"] or self.block_depth > 2:
+            return None
+        x = self.fresh("i")
+        body = self.loop_body(1 + r.below(2), [V(x, "flt", mutable=False)])
+        self.feat("stat:fornum-float")
+        e1, e2, e3 = r.choice([(Flt(0.0), Flt(1.0), Flt(0.25)), (Int(1), Flt(2.5), None), (Flt(1.0), Int(3), None),
+                               (Flt(2.0), Flt(0.5), Flt(-0.5)), (Int(1), Int(2), Flt(0.5))])
+        return [For(x, e1, e2, e3, body)]
+
+    def s_forin(self):
+        r = self.rng
+        if self.block_depth > 2:
+            return None
+        i, v = self.fresh("i"), self.fresh("e")
+        vs = self.vars_of("seq")
+        if vs and r.chance(2, 3):
+            src = Var(r.choice(vs).name)
+        else:
+            src = self.e_seq(0, False, True)
+        body = self.loop_body(1 + r.below(2), [V(i, "int", mutable=False), V(v, "any", mutable=False)])
+        self.feat("stat:forin-ipairs")
+        return [ForIn([i, v], [Call(Var("ipairs"), src)], body)]
+
+    def s_iter_closure(self):
+        """generic for over a closure iterator (stateful) or a stateless iterator function"""
+        r = self.rng
+        if self.block_depth > 2 or self.pure:
+            return None
+        it = self.fresh("it")
+        x = self.fresh("i")
+        n = 1 + r.below(4)
+        body = self.loop_body(1 + r.below(2), [V(x, "int", mutable=False)])
+        if r.chance(1, 2):
+            self.feat("stat:forin-closure")
+            c = self.fresh("c")
+            mk = LocalFn(it, Fn(["n"], False, [
+                Local([c], [Int(0)]),
+                Return(Fn([], False, [
+                    Assign([Var(c)], [Bin("add", Var(c), Int(1))]),
+                    If([(Bin("le", Var(c), Var("n")), [Return(Var(c))])], None)]))]))
+            return [mk, ForIn([x], [Call(Var(it), Int(n))], body)]
+        self.feat("stat:forin-stateless")
+        mk = LocalFn(it, Fn(["s", "c"], False, [
+            If([(Bin("lt", Var("c"), Var("s")), [Return(Bin("add", Var("c"), Int(1)))])], None)]))
+        return [mk, ForIn([x], [Var(it), Int(n), Int(0)], body)]
+
+    def s_do(self):
+        if self.block_depth > 3:
+            return None
+        self.feat("stat:do")
+        return [Do(self.block(1 + self.rng.below(3)))]
+
+    def s_break(self):
+        if self.loop_depth == 0 or self.block_depth > 3:
+            return None
+        c = self.exp("bool", 0, not self.pure, False)
+        self.feat("stat:break")
+        return [If([(c, [Break()])], None)]
+
+    def s_return_early(self):
+        if self.fn_level == 0 or self.block_depth > 3 or not self.cur_rets:
+            return None
+        c = self.exp("bool", 0, False, False)
+        self.feat("stat:return-early")
+        return [If([(c, [Return(*self.ret_exps(self.cur_rets))])], None)]
+
+    def ret_exps(self, rets):
+        es = []
+        used = False
+        for t in rets:
+            c0 = self.impc
+            es.append(self.exp(t, 1, not used and not self.pure, used))
+            used = used or self.impc != c0
+        return es
+
+    cur_rets = None
+
+    def make_fn(self, np, va, rets, pure, body_n, extra_body=None):
+        """generate a function literal with np int parameters"""
+        saved = (self.loop_depth, self.in_va, self.pure, self.cur_rets, self.block_depth)
+        self.loop_depth, self.in_va, self.pure, self.cur_rets = 0, va, pure or self.pure, rets
+        self.block_depth = 1
+        self.fn_level += 1
+        self.push()
+        params = []
+        for _ in range(np):
+            p = self.fresh("p")
+            params.append(p)
+            self.declare(V(p, "int", mutable=self.rng.chance(1, 2)))
+        body = self.block(body_n, new_scope=False)
+        body = [s for s in body]
+        if extra_body:
+            body += extra_body()
+        if not self._ends_abruptly(body):
+            body.append(Return(*self.ret_exps(rets)))
+        self.pop()
+        self.fn_level -= 1
+        self.loop_depth, self.in_va, self.pure, self.cur_rets, self.block_depth = saved
+        return Fn(params, va, body)
+
+    def s_fn(self):
+        r = self.rng
+        if self.fn_level >= 2 or self.block_depth > 3:
+            return None
+        np = r.below(4)
+        va = r.chance(1, 4)
+        nret = r.choice([1, 1, 1, 2, 3, 0])
+        rets = [r.choice(["int", "int", "str"]) for _ in range(nret)]
+        pure = r.chance(1, 3) or self.pure
+        name = self.fresh("f")
+        info = {"np": np, "va": va, "rets": rets, "pure": pure, "busy": True}
+        fv = V(name, "fn", mutable=False, info=info)
+        style = r.below(3)
+        if style == 0:
+            self.declare(fv)      # local function: visible in its own body (but not called: busy)
+        fn = self.make_fn(np, va, rets, pure, r.below(4))
+        if style != 0:
+            self.declare(fv)
+        info["busy"] = False
+        self.feat("fn:%s%s/ret%d" % ("pure" if pure else "impure", "-va" if va else "", nret))
+        if style == 0:
+            return [LocalFn(name, fn)]
+        return [Local([name], [fn])]
+
+    def s_callstat(self):
+        if self.pure:
+            return None
+        fs = self.fns(True, False)
+        if not fs:
+            return None
+        self.feat("stat:call")
+        return [SCall(self.call_fn(self.rng.choice(fs), 0, True, False))]
+
+    def s_multi(self):
+        """multiple results: adjustment in local lists, argument lists, table constructors, parentheses"""
+        r = self.rng
+        fs = [v for v in self.fns(not self.pure, False) if len(v.info["rets"]) >= 2]
+        if not fs or self.pure:
+            return None
+        v = r.choice(fs)
+        k = r.below(5)
+        call = self.call_fn(v, 0, True, False)
+        self.feat("multi:%d" % k)
+        if k == 0:
+            return [self.emit_stat([call])]
+        if k == 1:
+            return [self.emit_stat([call, Int(1)])]
+        if k == 2:
+            return [self.emit_stat([Par(call)])]
+        if k == 3:
+            t = self.fresh("t")
+            return [Local([t], [Tab(FPos(call))]), self.emit_stat([Un("len", Var(t))])]
+        a, b, c = self.fresh("m"), self.fresh("m"), self.fresh("m")
+        for nm, ty in zip((a, b, c), (v.info["rets"] + ["any", "any"])[:3]):
+            self.declare(V(nm, ty if len(v.info["rets"]) >= 3 or nm != c else "any", mutable=False))
+        return [Local([a, b, c], [call])]
+
+    def s_closure_loop(self):
+        """closures created in a loop capture fresh variables per iteration"""
+        r = self.rng
+        if self.pure or self.block_depth > 2:
+            return None
+        fs, i, j, k = self.fresh("fs"), self.fresh("i"), self.fresh("j"), self.fresh("k")
+        n = 2 + r.below(3)
+        inner = Fn(["x"], False, [Assign([Var(j)], [Bin("add", Var(j), Var("x"))]), Return(Bin("add", Bin("mul", Var(i), Int(100)), Var(j)))])
+        kind = r.below(3)
+        self.feat("closure-in-loop:%d" % kind)
+        mk = [Local([j], [Bin("mul", Var(i), Int(10))]), Assign([Ix(Var(fs), Bin("add", Un("len", Var(fs)), Int(1)))], [inner])]
+        if kind == 0:
+            loop = For(i, Int(1), Int(n), None, mk)
+        elif kind == 1:
+            loop = ForIn([i], [Call(Var("ipairs"), Tab(*[FPos(Int(7 + q)) for q in range(n)]))], mk)
+        else:
+            w = self.fresh("w")
+            loop = Do([Local([w], [Int(0)]),
+                       While(Bin("lt", Var(w), Int(n)), [Assign([Var(w)], [Bin("add", Var(w), Int(1))]), Local([i], [Var(w)])] + mk)])
+        use = For(k, Int(1), Un("len", Var(fs)), None,
+                  [self.emit_stat([Call(Ix(Var(fs), Var(k)), Var(k))]), self.emit_stat([Call(Ix(Var(fs), Var(k)), Int(1))])])
+        return [Local([fs], [Tab()]), loop, use]
+
+    def s_seq(self):
+        r = self.rng
+        if self.pure:
+            return None
+        vs = self.vars_of("seq")
+        if not vs or r.chance(1, 3):
+            t = self.fresh("t")
+            e = self.e_seq(0, False, True)
+            self.declare(V(t, "seq", mutable=False))
+            return [Local([t], [e])]
+        v = r.choice(vs)
+        k = r.below(6)
+        val = self.exp("int", 0, True, True)
+        self.feat("seq-op:%d" % k)
+        if k == 0:
+            return [Assign([Ix(Var(v.name), Bin("add", Un("len", Var(v.name)), Int(1)))], [val])]
+        if k == 1:
+            return [SCall(Call(Fld(Var("table"), "insert"), Var(v.name), val))]
+        if k == 2:
+            return [self.emit_stat([Call(Fld(Var("table"), "remove"), Var(v.name))])]
+        if k == 3:
+            return [self.emit_stat([Call(Fld(Var("table"), "unpack"), Var(v.name))])]
+        if k == 4:
+            return [SCall(Call(Fld(Var("table"), "insert"), Var(v.name), Int(1), val))]
+        return [self.emit_stat([Call(Fld(Var("table"), "concat"), Var(v.name), Str(","))])]
+
+    def s_rec(self):
+        r = self.rng
+        if self.pure:
+            return None
+        vs = self.vars_of("rec")
+        if not vs or r.chance(1, 3):
+            t = self.fresh("r")
+            fields = r.choice([["x", "y"], ["a"], ["n", "m", "k"], ["x"]])
+            fl = []
+            for f in fields:
+                e = self.exp("int", 1, False, True)
+                fl.append(FNamed(f, e) if r.chance(2, 3) else FKey(Str(f), e))
+            self.declare(V(t, "rec", mutable=False, info={"fields": fields}))
+            self.feat("ctor:rec")
+            return [Local([t], [Tab(*fl)])]
+        v = r.choice(vs)
+        f = r.choice(v.info["fields"])
+        self.feat("rec-write")
+        val = self.exp("int", 0, True, True)
+        tgt = Fld(Var(v.name), f) if r.chance(1, 2) else Ix(Var(v.name), Str(f))
+        return [Assign([tgt], [val])]
+
+    def s_obj(self):
+        """class-like object with methods, `:` calls and chaining"""
+        r = self.rng
+        if self.pure or self.fn_level > 0 or self.block_depth > 2:
+            return None
+        C, o = self.fresh("C"), self.fresh("o")
+        self.feat("object-methods")
+        stm = [Local([C], [Tab()]),
+               Assign([Fld(Var(C), "__index")], [Var(C)]),
+               FunStat([C, "new"], None, Fn(["v"], False, [Return(Call(Var("setmetatable"), Tab(FNamed("v", Var("v"))), Var(C)))])),
+               FunStat([C], "add", Fn(["self", "d"], False, [Assign([Fld(Var("self"), "v")], [Bin("add", Fld(Var("self"), "v"), Var("d"))]), Return(Var("self"))])),
+               FunStat([C], "get", Fn(["self"], True, [Return(Fld(Var("self"), "v"), Dots())])),
+               Local([o], [Call(Fld(Var(C), "new"), self.exp("int", 1, False, True))])]
+        chain = Var(o)
+        for _ in range(1 + r.below(3)):
+            chain = Meth(chain, "add", self.exp("int", 1, False, True))
+        stm.append(self.emit_stat([Meth(chain, "get", Int(r.below(5)))]))
+        stm.append(self.emit_stat([Fld(Var(o), "v"), Bin("eq", Call(Var("getmetatable"), Var(o)), Var(C))]))
+        return stm
+
+    def s_method_str(self):
+        if not self.pf["strings"]:
+            return None
+        r = self.rng
+        s = self.exp("str", 1, False, True)
+        self.feat("string-method")
+        k = r.below(3)
+        if k == 0:
+            return [self.emit_stat([Meth(s, "len"), Meth(s, "byte", Int(1), Int(-1))])]
+        if k == 1:
+            return [self.emit_stat([Meth(Par(s) if s.k not in ("var",) else s, "sub", Int(2)), Call(Fld(Var("string"), "len"), s)])]
+        return [self.emit_stat([Call(Fld(Var("string"), "rep"), s, Int(2)), Call(Fld(Var("string"), "byte"), s, Int(r.below(4)))])]
+
+    def s_meta(self):
+        r = self.rng
+        if not self.pf["meta"] or self.pure or self.fn_level > 0 or self.block_depth > 2:
+            return None
+        mt, a, b = self.fresh("mt"), self.fresh("a"), self.fresh("b")
+        k = r.below(12)
+        self.feat("meta:%d" % k)
+        newobj = lambda val: Call(Var("setmetatable"), Tab(FNamed("v", val)), Var(mt))
+        pre = [Local([mt], [Tab()])]
+        va, vb = self.exp("int", 1, False, True), self.exp("int", 1, False, True)
+        mk = [Local([a, b], [newobj(va), newobj(vb)])]
+        val = lambda e: Par(Or(And(Bin("eq", Call(Var("type"), e), Str("table")), Fld(e, "v")), e))
+        if k == 0:
+            ev, op = r.choice([("__add", "add"), ("__sub", "sub"), ("__mul", "mul"), ("__idiv", "idiv"), ("__mod", "mod"),
+                               ("__div", "div"), ("__pow", "pow"), ("__band", "band"), ("__bor", "bor"), ("__bxor", "bxor"),
+                               ("__shl", "shl"), ("__shr", "shr"), ("__concat", "concat")])
+            self.feat("metaevent:" + ev)
+            h = Fn(["x", "y"], False, [self.emit_stat([Str(ev), Call(Var("type"), Var("x")), Call(Var("type"), Var("y"))]),
+                                       Return(Bin("add", val(Var("x")), val(Var("y"))))])
+            other = r.choice([Var(b), Int(5), Int(5)])
+            if ev == "__concat" and other.k == "int":
+                other = Str("s")
+                h = Fn(["x", "y"], False, [self.emit_stat([Str(ev), Call(Var("type"), Var("x")), Call(Var("type"), Var("y"))]), Return(Int(1))])
+            use = Bin(op, Var(a), other) if r.chance(2, 3) else Bin(op, other, Var(a))
+            return pre + [Assign([Fld(Var(mt), ev)], [h])] + mk + [self.emit_stat([use])]
+        if k == 1:
+            ev, op = r.choice([("__unm", "neg"), ("__bnot", "bnot"), ("__len", "len")])
+            self.feat("metaevent:" + ev)
+            h = Fn(["x", "y"], False, [self.emit_stat([Str(ev), Bin("eq", Var("x"), Var("y"))]), Return(Bin("add", Fld(Var("x"), "v"), Int(1)), Int(99))])
+            return pre + [Assign([Fld(Var(mt), ev)], [h])] + mk + [self.emit_stat([Un(op, Var(a))])]
+        if k == 2:
+            ev, op = r.choice([("__lt", "lt"), ("__le", "le"), ("__lt", "gt"), ("__le", "ge")])
+            self.feat("metaevent:" + ev)
+            h = Fn(["x", "y"], False, [self.emit_stat([Str(ev), val(Var("x")), val(Var("y"))]),
+                                       Return(r.choice([Bin("lt", val(Var("x")), val(Var("y"))), Int(0), Nil(), Str("yes")]))])
+            other = r.choice([Var(b), Int(3)])
+            use = Bin(op, Var(a), other) if r.chance(1, 2) else Bin(op, other, Var(a))
+            return pre + [Assign([Fld(Var(mt), ev)], [h])] + mk + [self.emit_stat([use])]
+        if k == 3:
+            self.feat("metaevent:__eq")
+            h = Fn(["x", "y"], False, [self.emit_stat([Str("__eq")]), Return(r.choice([Bin("eq", Fld(Var("x"), "v"), Fld(Var("y"), "v")), Int(1), Nil()]))])
+            return pre + [Assign([Fld(Var(mt), "__eq")], [h])] + mk + [
+                self.emit_stat([Bin("eq", Var(a), Var(b)), Bin("ne", Var(a), Var(b)), Bin("eq", Var(a), Var(a)), Bin("eq", Var(a), Int(1)),
+                                Call(Var("rawequal"), Var(a), Var(b))])]
+        if k == 4:
+            self.feat("metaevent:__index-fn")
+            h = Fn(["t", "key"], False, [self.emit_stat([Str("__index"), Var("key")]), Return(Bin("concat", Var("key"), Str("!")), Int(2))])
+            return pre + [Assign([Fld(Var(mt), "__index")], [h])] + mk + [
+                self.emit_stat([Fld(Var(a), "v"), Fld(Var(a), "zz")]), self.emit_stat([Call(Var("rawget"), Var(a), Str("zz"))])]
+        if k == 5:
+            self.feat("metaevent:__index-chain")
+            base, mid = self.fresh("b"), self.fresh("b")
+            return pre + [Local([base], [Tab(FNamed("deep", Int(42)), FNamed("v", Int(-1)))]),
+                          Local([mid], [Call(Var("setmetatable"), Tab(FNamed("mid", Int(7))), Tab(FNamed("__index", Var(base))))]),
+                          Assign([Fld(Var(mt), "__index")], [Var(mid)])] + mk + [
+                self.emit_stat([Fld(Var(a), "deep"), Fld(Var(a), "mid"), Fld(Var(a), "v"), Fld(Var(a), "none")])]
+        if k == 6:
+            self.feat("metaevent:__newindex-fn")
+            h = Fn(["t", "key", "value"], False, [self.emit_stat([Str("__newindex"), Var("key"), Var("value")]),
+                                                  SCall(Call(Var("rawset"), Var("t"), Var("key"), Bin("add", Var("value"), Int(1))))])
+            return pre + [Assign([Fld(Var(mt), "__newindex")], [h])] + mk + [
+                Assign([Fld(Var(a), "v")], [Int(10)]), Assign([Fld(Var(a), "w")], [Int(20)]), Assign([Fld(Var(a), "w")], [Int(30)]),
+                self.emit_stat([Fld(Var(a), "v"), Fld(Var(a), "w")])]
+        if k == 7:
+            self.feat("metaevent:__newindex-table")
+            store = self.fresh("st")
+            return pre + [Local([store], [Tab()]), Assign([Fld(Var(mt), "__newindex")], [Var(store)])] + mk + [
+                Assign([Fld(Var(a), "q")], [Int(5)]), Assign([Fld(Var(a), "v")], [Int(6)]),
+                self.emit_stat([Call(Var("rawget"), Var(a), Str("q")), Fld(Var(store), "q"), Fld(Var(a), "v")])]
+        if k == 8:
+            self.feat("metaevent:__call")
+            h = Fn(["self", "x"], True, [self.emit_stat([Str("__call"), Fld(Var("self"), "v"), Var("x"), Call(Var("select"), Str("#"), Dots())]),
+                                         Return(Var("x"), Dots())])
+            return pre + [Assign([Fld(Var(mt), "__call")], [h])] + mk + [self.emit_stat([Call(Var(a), Int(1), Int(2), Int(3))]),
+                                                                         self.emit_stat([Call(Var(b))])]
+        if k == 9:
+            self.feat("metaevent:__tostring")
+            h = Fn(["x"], False, [Return(Bin("concat", Str("obj:"), Fld(Var("x"), "v")))])
+            return pre + [Assign([Fld(Var(mt), "__tostring")], [h])] + mk + [self.emit_stat([Call(Var("tostring"), Var(a))])]
+        if k == 10:
+            self.feat("metaevent:__call-chain")
+            mt2, c = self.fresh("mt"), self.fresh("c")
+            h = Fn(["s1", "s2", "x"], False, [self.emit_stat([Str("call2"), Bin("eq", Var("s1"), Var(a)), Var("x")]), Return(Var("x"))])
+            return pre + mk + [Assign([Fld(Var(mt), "__call")], [h]),
+                               Local([c], [Call(Var("setmetatable"), Tab(), Tab(FNamed("__call", Var(a))))]),
+                               self.emit_stat([Call(Var(c), Int(9))])]
+        self.feat("metaevent:__index-rawequal")
+        return pre + mk + [self.emit_stat([Call(Var("rawlen"), Tab(FPos(Int(1)), FPos(Int(2)))), Call(Var("rawequal"), Var(a), Var(a)),
+                                           Bin("eq", Call(Var("getmetatable"), Var(a)), Var(mt)), Call(Var("getmetatable"), Str("x")) and
+                                           Bin("eq", Fld(Call(Var("getmetatable"), Str("x")), "__index"), Var("string"))])]
+
+    ERR_VALUES = ["str", "str1", "str2", "tab", "int", "nil", "false", "flt", "rt-arith", "rt-call", "rt-index", "rt-concat",
+                  "rt-compare", "rt-len", "rt-div0", "rt-mod0", "rt-setindex", "rt-intrep", "assert", "assertmsg"]
+
+    def raise_stats(self, kind):
+        """statements that raise; each is a single-line statement with one effect"""
+        r = self.rng
+        self.feat("raise:" + kind)
+        n = self.fresh("z")
+        if kind == "str":
+            return [SCall(Call(Var("error"), Str(r.choice([b"boom", b"bad thing", b"E1"]))))]
+        if kind == "str1":
+            return [SCall(Call(Var("error"), Str("lvl1"), Int(1)))]
+        if kind == "str2":
+            return [SCall(Call(Var("error"), Str("lvl0"), Int(0)))]
+        if kind == "tab":
+            return [SCall(Call(Var("error"), Tab(FNamed("code", self.exp("int", 2, False, True)))))]
+        if kind == "int":
+            return [SCall(Call(Var("error"), Int(r.below(100))))]
+        if kind == "nil":
+            return [SCall(Call(Var("error"), Nil()))] if r.chance(1, 2) else [SCall(Call(Var("error")))]
+        if kind == "false":
+            return [SCall(Call(Var("error"), FalseE()))]
+        if kind == "flt":
+            return [SCall(Call(Var("error"), Flt(2.5), Int(2)))]
+        if kind == "assert":
+            return [SCall(Call(Var("assert"), FalseE(), Tab(FNamed("code", Int(1)))))]
+        if kind == "assertmsg":
+            return [SCall(Call(Var("assert"), Nil(), Int(77)))]
+        loc = Local([n], [Nil()])
+        d = {"rt-arith": Bin("add", Var(n), Int(1)), "rt-call": Call(Var(n), Int(1)), "rt-index": Fld(Var(n), "f"),
+             "rt-concat": Bin("concat", Var(n), Str("x")), "rt-compare": Bin("lt", Var(n), Int(1)), "rt-len": Un("len", Var(n)),
+             "rt-div0": Bin("idiv", Int(1), Int(0)), "rt-mod0": Bin("mod", Int(1), Int(0)),
+             "rt-intrep": Bin("bor", Flt(1.5), Int(1))}
+        if kind == "rt-setindex":
+            return [loc, Assign([Fld(Var(n), "f")], [Int(1)])]
+        return [loc, Local([self.fresh("z")], [d[kind]])]
+
+    def protected_body(self, kind, depth=0):
+        """a function literal whose body emits, possibly calls deeper, then raises"""
+        r = self.rng
+        saved = (self.loop_depth, self.in_va, self.cur_rets, self.block_depth)
+        self.loop_depth, self.in_va, self.cur_rets, self.block_depth = 0, False, [], 2
+        self.fn_level += 1
+        self.push()
+        body = self.block(r.below(2), new_scope=False)
+        if self._ends_abruptly(body):
+            body = body[:-1]
+        body.append(self.emit_stat([Str("in"), Int(depth)]))
+        if kind is None:
+            body.append(Return(*[self.exp(r.choice(["int", "str"]), 1, False, True) for _ in range(r.below(4))]))
+        else:
+            where = r.below(4)
+            rs = self.raise_stats(kind)
+            if where == 0:
+                body += rs
+            elif where == 1:
+                self.feat("raise-in:loop")
+                body.append(For(self.fresh("i"), Int(1), Int(3), None, [If([(Bin("eq", Var("i%d" % self.nname), Int(2)), rs)], None)]))
+            elif where == 2:
+                self.feat("raise-in:nested-fn")
+                g = self.fresh("g")
+                body += [LocalFn(g, Fn(["q"], False, rs + [Return(Var("q"))])), self.emit_stat([Call(Var(g), Int(1))])]
+            else:
+                self.feat("raise-in:if")
+                body.append(If([(TrueE(), rs)], [self.emit_stat([Str("no")])]))
+            if body[-1].k != "return":
+                body.append(self.emit_stat([Str("unreachable")]))
+        self.pop()
+        self.fn_level -= 1
+        self.loop_depth, self.in_va, self.cur_rets, self.block_depth = saved
+        return Fn([], False, body)
+
+    def s_pcall(self):
+        r = self.rng
+        if not self.pf["errors"] or self.pure or self.fn_level > 1 or self.block_depth > 2:
+            return None
+        kind = r.choice(self.ERR_VALUES + [None, None, None])
+        if kind == "flt" and not self.pf["floats"]:
+            kind = "int"
+        ok, e = self.fresh("ok"), self.fresh("er")
+        fn = self.protected_body(kind)
+        self.feat("pcall:" + ("returns" if kind is None else "raises"))
+        out = []
+        if r.chance(1, 3) and kind is not None:
+            # nested: the inner pcall catches, the outer sees a normal return
+            self.feat("pcall:nested")
+            inner = fn
+            fn = Fn([], False, [Local(["a", "b"], [Call(Var("pcall"), inner)]), self.emit_stat([Str("inner"), Var("a"), Var("b")]),
+                                Return(Var("a"), Var("b"))])
+        out.append(Local([ok, e], [Call(Var("pcall"), fn)]))
+        self.declare(V(ok, "bool", mutable=False))
+        self.declare(V(e, "any", mutable=False))
+        out.append(self.emit_stat([Var(ok), Var(e), Call(Var("type"), Var(e))]))
+        if kind in ("tab", "assert"):
+            out.append(self.emit_stat([Bin("eq", Call(Var("type"), Var(e)), Str("table")), And(Bin("eq", Call(Var("type"), Var(e)), Str("table")), Fld(Var(e), "code"))]))
+        if r.chance(1, 4) and kind is not None and self.fn_level == 0:
+            self.feat("rethrow")
+            ok2, e2 = self.fresh("ok"), self.fresh("er")
+            out.append(Local([ok2, e2], [Call(Var("pcall"), Var("error"), Var(e), Int(0))]))
+            out.append(self.emit_stat([Var(ok2), Bin("eq", Var(e2), Var(e)), Call(Var("rawequal"), Var(e2), Var(e))]))
+        return out
+
+    def s_xpcall(self):
+        r = self.rng
+        if not self.pf["errors"] or self.pure or self.fn_level > 0 or self.block_depth > 2:
+            return None
+        kind = r.choice(self.ERR_VALUES + [None])
+        if kind == "flt" and not self.pf["floats"]:
+            kind = "int"
+        fn = self.protected_body(kind)
+        hk = r.below(3)
+        self.feat("xpcall:handler%d" % hk)
+        if hk == 0:
+            h = Fn(["m"], False, [self.emit_stat([Str("handler"), Var("m")]), Return(Var("m"))])
+        elif hk == 1:
+            h = Fn(["m"], False, [self.emit_stat([Str("handler"), Call(Var("type"), Var("m"))]), Return(Tab(FNamed("wrapped", Var("m"))), Int(2))])
+        else:
+            h = Fn(["m"], True, [self.emit_stat([Str("handler"), Call(Var("select"), Str("#"), Dots())])])
+        ok, e = self.fresh("ok"), self.fresh("er")
+        self.declare(V(ok, "bool", mutable=False))
+        self.declare(V(e, "any", mutable=False))
+        out = [Local([ok, e], [Call(Var("xpcall"), fn, h)]), self.emit_stat([Var(ok), Var(e)])]
+        if hk == 1:
+            out.append(self.emit_stat([And(Bin("eq", Call(Var("type"), Var(e)), Str("table")), Fld(Var(e), "wrapped"))]))
+        return out
+
+    def s_goto(self):
+        r = self.rng
+        if not self.pf["goto"] or self.block_depth > 2:
+            return None
+        self.nlabel += 1
+        lab = "L%d" % self.nlabel
+        k = r.below(3)
+        self.feat("goto:%d" % k)
+        if k == 0:
+            # continue
+            x = self.fresh("i")
+            self.push()
+            self.declare(V(x, "int", mutable=False))
+            self.loop_depth += 1
+            c = self.exp("bool", 1, False, False)
+            body = self.block(1 + r.below(2), new_scope=False)
+            self.loop_depth -= 1
+            self.pop()
+            if self._ends_abruptly(body):
+                body = body[:-1]
+            return [For(x, Int(1), Int(2 + r.below(3)), None, [If([(c, [Goto(lab)])], None)] + [Do(body)] + [Label(lab)])]
+        if k == 1:
+            # backward goto loop with a fresh local per round
+            i = self.fresh("i")
+            self.declare(V(i, "int", mutable=False))
+            fs = self.fresh("fs")
+            j = self.fresh("j")
+            return [Local([i], [Int(0)]), Local([fs], [Tab()]), Label(lab),
+                    Do([Local([j], [Bin("mul", Var(i), Int(3))]),
+                        Assign([Ix(Var(fs), Bin("add", Un("len", Var(fs)), Int(1)))], [Fn([], False, [Return(Var(j))])]),
+                        Assign([Var(i)], [Bin("add", Var(i), Int(1))]),
+                        If([(Bin("lt", Var(i), Int(2 + r.below(3))), [Goto(lab)])], None)]),
+                    self.emit_stat([Un("len", Var(fs)), Call(Ix(Var(fs), Int(1))), Call(Ix(Var(fs), Un("len", Var(fs))))])]
+        # break out of nested loops
+        x, y = self.fresh("i"), self.fresh("i")
+        return [For(x, Int(1), Int(3), None, [For(y, Int(1), Int(3), None, [
+            If([(Bin("eq", Bin("mul", Var(x), Var(y)), Int(r.choice([2, 4, 6, 9, 100]))), [Goto(lab)])], None),
+            self.emit_stat([Var(x), Var(y)])])]), Label(lab)]
+
+    def s_varargs(self):
+        r = self.rng
+        if self.fn_level >= 2 or self.block_depth > 3 or self.pure:
+            return None
+        f = self.fresh("va")
+        k = r.below(6)
+        self.feat("vararg:%d" % k)
+        if k == 0:
+            body = [Local(["a", "b"], [Dots()]), Return(Call(Var("select"), Str("#"), Dots()), Var("a"), Var("b"))]
+        elif k == 1:
+            body = [Local(["t"], [Tab(FPos(Dots()))]), Return(Un("len", Var("t")), Dots())]
+        elif k == 2:
+            body = [Local(["t"], [Tab(FPos(Dots()), FPos(Str("end")))]), Return(Un("len", Var("t")), Par(Dots()))]
+        elif k == 3:
+            body = [Return(Call(Var("select"), Int(2), Dots()))]
+        elif k == 4:
+            body = [Local(["p"], [Call(Fld(Var("table"), "pack"), Dots())]), Return(Fld(Var("p"), "n"), Call(Fld(Var("table"), "unpack"), Var("p"), Int(1), Fld(Var("p"), "n")))]
+        else:
+            g = "g"
+            body = [LocalFn(g, Fn(["x"], True, [Return(Dots(), Var("x"))])), Return(Call(Var(g), Dots()))]
+        nargs = r.below(4)
+        args = [self.exp(r.choice(["int", "str", "any"]), 1, False, True) for _ in range(nargs)]
+        if k == 3 and nargs < 2:
+            args += [Int(1), Int(2)]
+        return [LocalFn(f, Fn([], True, body)), self.emit_stat([Call(Var(f), *args)])]
+
+    def s_tailrec(self):
+        r = self.rng
+        if self.fn_level >= 1 or self.pure:
+            return None
+        f = self.fresh("rec")
+        k = r.below(3)
+        self.feat("recursion:%d" % k)
+        n = Int(r.below(8))
+        if k == 0:
+            fn = Fn(["n", "acc"], False, [If([(Bin("le", Var("n"), Int(0)), [Return(Var("acc"))])], None),
+                                         Return(Call(Var(f), Bin("sub", Var("n"), Int(1)), Bin("add", Var("acc"), Var("n"))))])
+            self.feat("tail-call")
+            return [LocalFn(f, fn), self.emit_stat([Call(Var(f), n, Int(0))])]
+        if k == 1:
+            fn = Fn(["n"], False, [If([(Bin("le", Var("n"), Int(1)), [Return(Int(1))])], None),
+                                  Return(Bin("mul", Var("n"), Call(Var(f), Bin("sub", Var("n"), Int(1)))))])
+            return [LocalFn(f, fn), self.emit_stat([Call(Var(f), n)])]
+        g = self.fresh("rec")
+        return [Local([f, g], []),
+                Assign([Var(f)], [Fn(["n"], False, [If([(Bin("eq", Var("n"), Int(0)), [Return(TrueE())])], None), Return(Call(Var(g), Bin("sub", Var("n"), Int(1))))])]),
+                Assign([Var(g)], [Fn(["n"], False, [If([(Bin("eq", Var("n"), Int(0)), [Return(FalseE())])], None), Return(Call(Var(f), Bin("sub", Var("n"), Int(1))))])]),
+                self.emit_stat([Call(Var(f), n)])]
+
+    def s_const(self):
+        x = self.fresh("k")
+        e = self.exp("int", 1, False, False)
+        self.declare(V(x, "int", mutable=False))
+        self.feat("attrib:const")
+        return [Local([x], [e], ["const"])]
+
+    # ------------------------------------------------------------------ whole program
+    def program(self):
+        r = self.rng
+        nargs = r.below(4)
+        tys = [r.choice(["int", "int", "str"]) for _ in range(nargs)]
+        tuples = []
+        for _ in range(2):
+            t = []
+            for ty in tys:
+                if ty == "int":
+                    t.append("i%d" % self.small_int())
+                else:
+                    s = r.choice(STR_POOL)
+                    t.append("s" + s.hex() if s else "s-")
+            tuples.append(t)
+        body = []
+        if nargs:
+            names = [self.fresh("a") for _ in range(nargs)]
+            for nm, ty in zip(names, tys):
+                self.declare(V(nm, ty, mutable=r.chance(1, 2)))
+            body.append(Local(names, [Dots()]))
+        while self.budget > 0:
+            body += self.stat()
+            if self._ends_abruptly(body):
+                body = body[:-1]
+        body.append(self.observe())
+        rets = [self.exp(r.choice(["int", "str", "bool", "any"]), 1, False, False) for _ in range(r.below(4))]
+        body.append(Return(*rets))
+        return body, tuples, self.feats
+
+
+# =====================================================================================
+# Shrinking (AST reduction)
+# =====================================================================================
+def sub_blocks(s):
+    """the statement lists directly contained in statement s: list of (getter, setter)"""
+    k = s.k
+    out = []
+    if k in ("do",):
+        out.append((s.a, 0))
+    elif k == "while":
+        out.append((s.a, 1))
+    elif k == "repeat":
+        out.append((s.a, 0))
+    elif k == "for":
+        out.append((s.a, 4))
+    elif k == "forin":
+        out.append((s.a, 2))
+    elif k == "if":
+        for i, (c, b) in enumerate(s.a[0]):
+            out.append(("arm", s, i))
+        if s.a[1] is not None:
+            out.append((s.a, 1))
+    return out
+
+
+def fn_nodes(e, acc):
+    """function literals inside expression e"""
+    if isinstance(e, Node):
+        if e.k == "fn":
+            acc.append(e)
+        for x in e.a:
+            fn_nodes(x, acc)
+    elif isinstance(e, (list, tuple)):
+        for x in e:
+            fn_nodes(x, acc)
+
+
+def all_blocks(block, acc):
+    """every statement list in the program (as mutable python lists)"""
+    acc.append(block)
+    for s in block:
+        if s.k == "if":
+            for c, b in s.a[0]:
+                all_blocks(b, acc)
+                f = []
+                fn_nodes(c, f)
+                for fn in f:
+                    all_blocks(fn.a[2], acc)
+            if s.a[1] is not None:
+                all_blocks(s.a[1], acc)
+            continue
+        for x in s.a:
+            if isinstance(x, list) and x and all(isinstance(y, Node) and y.k in STAT_KINDS for y in x):
+                all_blocks(x, acc)
+            else:
+                f = []
+                fn_nodes(x, f)
+                for fn in f:
+                    all_blocks(fn.a[2], acc)
+
+
+STAT_KINDS = {"local", "assign", "scall", "do", "while", "repeat", "if", "for", "forin", "goto", "label", "break", "return",
+              "localfn", "funstat"}
+
+
+def shrink(block, still_fails, budget=400):
+    """greedy statement deletion / block flattening; still_fails(block) -> bool"""
+    changed = True
+    while changed and budget > 0:
+        changed = False
+        blocks = []
+        all_blocks(block, blocks)
+        for b in blocks:
+            i = 0
+            while i < len(b) and budget > 0:
+                s = b[i]
+                saved = list(b)
+                del b[i]
+                budget -= 1
+                if still_fails(block):
+                    changed = True
+                    continue
+                b[:] = saved
+                # replace a compound statement by its body
+                inner = None
+                if s.k == "do":
+                    inner = s.a[0]
+                elif s.k == "if" and s.a[0]:
+                    inner = s.a[0][0][1]
+                if inner is not None:
+                    b[i:i + 1] = inner
+                    budget -= 1
+                    if still_fails(block):
+                        changed = True
+                        continue
+                    b[:] = saved
+                i += 1
+    return block
